@@ -120,6 +120,12 @@ impl Containers {
                 // explicit zeros produced by cancellation: (A - A) stores zeros; algebra must not care
                 let z = &a - &a;
                 eq_sp("(A - A) + B", &(&z + &b), &gb, m, n);
+                eq_sp("(A - A) - B", &(&z - &b), &grid_neg(&gb), m, n);
+                eq_sp("B - (A - A)", &(&b - &z), &gb, m, n);
+                let z0 = SpMat::<I>::zero((m, n));
+                eq_sp("0 - B", &(&z0 - &b), &grid_neg(&gb), m, n);
+                eq_sp("0 + B", &(z0.clone() + b.clone()), &gb, m, n);
+                eq_sp("B - 0", &(b.clone() - z0.clone()), &gb, m, n);
                 eq_sp("(A - A) * C", &(&z * &c), &grid_zero(m, p), m, p);
                 I::oblige("is_zero(A - A)", VF::of_bool(z.is_zero()));
                 let zero_a = ga.iter().all(|r| r.iter().all(|e| e.is_zero()));
